@@ -290,7 +290,21 @@ class C11(EvalFamProp):
                 items = [('n', M(items[:1])), ('l', Q([Stext(r2.choice(CODE), 'eval')]))] + items[1:]
             r2.shuffle(items)
             cases[(7 * i + 3) % len(cases)] = {'docs': [{'raw': M(items)}], 'style': ['flow', 0, 0]}
+        # evaluated code that EDITS the tree being evaluated (it reaches it through `ayns.ctx.cfg`; outside the model: oracle only):
+        # evaluation works on its own copy, the source kept by the config must stay as merged and evaluate to the same again (S7-C11)
+        MUT = ["f = ayns.ctx.cfg.ayns.get_node('m.l')\nf.append(9)\nlen(f)",
+               "d = ayns.ctx.cfg['m']['d']\nd['w'] = 2 * int(d['w'])\nint(d['w'])",
+               "ayns.ctx.cfg['m']['d']['n'] = 1\nlen(ayns.ctx.cfg['m']['d'])",
+               "l = ayns.ctx.cfg['m']['l']\ndel l[0]\nlen(l)"]
+        for i in range(max(2, len(cases) // 25)):
+            items = [('m', M([('l', Q([S(1), S(2)])), ('d', M([('w', S(8))]))])), ('c', Stext(r2.choice(MUT), 'eval')), ('k', S(5))]
+            r2.shuffle(items)
+            if r2.random() < 0.4:
+                items = [('o', M(items[:2]))] + items[2:] if items[0][0] != 'm' and items[1][0] != 'm' else items
+            cases.append({'docs': [{'raw': M(items)}], 'style': ['block', 0, 0], 'mutating': True})
         for c in cases:
+            if c.get('mutating'):
+                continue
             if r2.random() < self.P_ALIAS:
                 for _ in range(3):
                     docs = add_alias(r2, c['docs'])
@@ -301,21 +315,21 @@ class C11(EvalFamProp):
         return cases + [gen_bunch_case(r3) for _ in range(max(1, n // 2))]
 
     def model_requests(self, case):
-        if case.get('files'):
+        if case.get('files') or case.get('mutating'):
             return []           # !rec is outside the model (DESIGN section 6): the oracle alone applies
         if case.get('kind') == 'bunch':
             return bunch_requests(case, bunch_run(case))
         return EvalFamProp.model_requests(self, case)
 
     def model_obs(self, case, answers):
-        if case.get('files'):
+        if case.get('files') or case.get('mutating'):
             return {'rec': True}
         if case.get('kind') == 'bunch':
             return {'bunch': answers[0]}
         return EvalFamProp.model_obs(self, case, answers)
 
     def compare(self, case, io, mo):
-        if case.get('files'):
+        if case.get('files') or case.get('mutating'):
             return 'SKIP'
         if case.get('kind') == 'bunch':
             return bunch_compare(case, io, mo['bunch'])
@@ -413,7 +427,8 @@ class C11(EvalFamProp):
                     nv = node.ayns.native_value
                     if type(val) is not type(nv) or (val != nv and not (val != val and nv != nv)):
                         checks.append(f'{path}: scalar {nv!r} ({type(nv).__name__}) evaluated to {val!r} ({type(val).__name__})')
-            mirror(cfg.ayns.source, cfg, 'cfg')
+            if not case.get('mutating'):      # code that edits the tree under evaluation: the result mirrors the edited copy, not the source
+                mirror(cfg.ayns.source, cfg, 'cfg')
             if not isinstance(cfg, Bunch):
                 checks.append('result is not a Bunch')
             src = cfg.ayns.source
